@@ -322,10 +322,19 @@ Proof.
     unfold memN in *. cbn [existsb] in Hne. destruct (N.eqb_spec h (t_height s1 + 1)); [lia | assumption].
 Qed.
 
+Lemma produce_n_inv : forall c n s, 1 <= c_init c -> Inv c s -> Inv c (fst (produce_n c s n)).
+Proof.
+  intros c. induction n as [|n IH]; intros s Hi I; cbn [produce_n]; [assumption|].
+  specialize (IH (produce c s false) Hi (produce_inv c s false Hi I)).
+  destruct (produce_n c (produce c s false) n) as [s2 m]. assumption.
+Qed.
+
 Lemma step_inv : forall c s i, 1 <= c_init c -> Inv c s -> Inv c (fst (step c s i)).
 Proof.
-  intros c s i Hi I. destruct i as [ne|sc|sc|]; cbn [step].
+  intros c s i Hi I. destruct i as [ne|n|sc|sc|]; cbn [step].
   - cbn [fst]. now apply produce_inv.
+  - pose proof (produce_n_inv c (N.to_nat n) s Hi I) as H.
+    destruct (produce_n c s (N.to_nat n)) as [s' m]. assumption.
   - destruct (headers_iter s sc) as [s' [r cs]] eqn:Hh. cbn [fst]. eapply headers_iter_inv; eassumption.
   - destruct (data_iter s sc) as [s' [r cs]] eqn:Hd. cbn [fst]. eapply data_iter_inv; eassumption.
   - cbn [fst]. now apply restart_inv.
@@ -628,4 +637,21 @@ Lemma c08_no_wrap : forall (c : cfg) (hist : list item), 1 <= c_init c ->
 Proof.
   intros c hist Hi s. destruct (final_inv c hist Hi). fold s in i_hlo0, i_hhi0, i_dlo0, i_dhi0.
   repeat split; try assumption; now apply sub64_le.
+Qed.
+
+(* the run-length item is n single attempts *)
+Lemma produce_n_is_repeat : forall c n s,
+  fst (produce_n c s n) = fst (run_from c s (repeat (IProduce false) n)).
+Proof.
+  intros c. induction n as [|n IH]; intros s; cbn [produce_n repeat run_from step]; [reflexivity|].
+  specialize (IH (produce c s false)).
+  destruct (produce_n c (produce c s false) n) as [s2 m].
+  destruct (run_from c (produce c s false) (repeat (IProduce false) n)) as [s3 os]. cbn [fst] in *. assumption.
+Qed.
+
+Lemma c08_run_length : forall (c : cfg) (hist : list item) (n : N),
+  final c (hist ++ [IProduceEmptyN n]) = final c (hist ++ repeat (IProduce false) (N.to_nat n)).
+Proof.
+  intros c hist n. rewrite !final_app. cbn [run_from step].
+  rewrite <- produce_n_is_repeat. destruct (produce_n c (final c hist) (N.to_nat n)) as [s' m]. reflexivity.
 Qed.
